@@ -66,6 +66,13 @@ def gen_steps(rng):
     """Abstract history: run steps carry 'ending': clean | abnormal (site chosen later against the twin)."""
     steps = []
     n_abn = 0
+    if rng.random() < 0.12:
+        # the lock is in place, the top statement goes, a new one comes - and the next run cannot stat/open/read the lock
+        return [{"op": "run", "check": False, "plan": None},
+                {"op": "dev", "edit": {"kind": "del_top", "pick": 0}},
+                {"op": "dev", "edit": {"kind": "add_stmt", "pick": rng.randrange(1000), "shape": "bare", "macro": "info"}},
+                {"op": "run", "check": False, "plan": "auto-lockread"},
+                {"op": "run", "check": False, "plan": None}]
     for _ in range(rng.randrange(1, 4)):
         for _d in range(rng.randrange(0, 3)):
             steps.append({"op": "dev", "edit": gen_dev(rng)})
@@ -87,9 +94,13 @@ SUFFIX = [{"op": "dev", "edit": {"kind": "del_top", "pick": 0}},
           {"op": "run", "check": False, "plan": None}]
 
 
-def choose_fault(rng, ops, phm):
+def choose_fault(rng, ops, phm, near_top=False):
     """One abnormal ending for an edit run, placed against the twin's operation list."""
     r = rng.random()
+    if near_top and 0.4 <= r < 0.47:
+        # Not at the top of the ID range: there the insert pass logs an error line ("range exhausted") in the middle of its
+        # work, and dying on *that* line with stdout closed is one more way into the publish window of known finding F4.
+        r = 0.9
     if r < 0.12:
         # persistent: disk full for everything writable from op k on
         wr = [o.k for o in ops if o.kind in ("WRITE", "OPEN_W")]
@@ -183,6 +194,14 @@ def execute(wm0, knobs, steps, seed, ctx, rng=None):
             plan = st.get("plan")
             run_seed = st.get("seed") or ((seed + si * 7919) | 1)
             st["seed"] = run_seed
+            if plan == "auto-lockread":
+                # fail the n-th stat / open / read of the lock file (class addressed)
+                kind = rng.choice(["STAT", "OPEN_R", "READ"])
+                plan = {"seed": run_seed, "perm": True,
+                        "faults": [{"from": 1, "kinds": [kind], "pre": "proj/Breadlog.lock", "nth": 1, "act": "fail",
+                                    "errno": rng.choice(["EIO", "EACCES"]) if kind != "READ" else "EIO"}]}
+                st["plan"] = plan
+                st["site"] = "startup"
             if plan == "auto":
                 twin_root = root + ".twin"
                 shutil.copytree(root, twin_root, symlinks=True)
@@ -195,7 +214,8 @@ def execute(wm0, knobs, steps, seed, ctx, rng=None):
                 if not tres.ops:
                     plan = None
                 else:
-                    faults, ph = choose_fault(rng, tres.ops, phm)
+                    lk_now = core.read_lock(wm["lock"]) if wm.get("lock") else None
+                    faults, ph = choose_fault(rng, tres.ops, phm, near_top=bool(lk_now is not None and lk_now >= U32 - 4096))
                     plan = {"seed": run_seed, "perm": True, "faults": faults}
                     if ph.startswith("stdout-closed:"):
                         plan["stdout_fail"] = int(ph.split(":")[1])
